@@ -1,0 +1,107 @@
+//go:build verif
+
+package core
+
+import (
+	"github.com/glebziz/fs_db/internal/model"
+	"github.com/glebziz/fs_db/internal/model/sequence"
+)
+
+// VerifAll returns a copy of the transaction map (verification builds only).
+func (txs *Transactions) VerifAll() map[string]*Transaction {
+	txs.m.RLock()
+	defer txs.m.RUnlock()
+
+	res := make(map[string]*Transaction, len(txs.store))
+	for id, tx := range txs.store {
+		res[id] = tx
+	}
+
+	return res
+}
+
+// VerifVersions lists the versions per key in list order; the caller holds the lock.
+// mirrorOK reports whether every array mirror holds exactly the nodes of its list.
+func (tx *Transaction) VerifVersions() (res map[string][]model.File, mirrorOK bool) {
+	res = make(map[string][]model.File, len(tx.store))
+	mirrorOK = true
+	for key, f := range tx.store {
+		var (
+			vs []model.File
+			i  int
+		)
+		if !f.l.IsEmpty() {
+			for n := f.l.Front(); n != &f.l.root; n = n.next {
+				vs = append(vs, n.v)
+				if !f.withoutSearch && (i >= len(f.arr) || f.arr[i] != n) {
+					mirrorOK = false
+				}
+				i++
+			}
+		}
+		if !f.withoutSearch && len(f.arr) != len(vs) {
+			mirrorOK = false
+		}
+		res[key] = vs
+	}
+
+	return res, mirrorOK
+}
+
+// VList is a single-key version list driven directly by the verification harness.
+type VList struct {
+	tx  Transaction
+	key string
+}
+
+// NewVList returns an empty version list.
+func NewVList(key string, withoutSearch bool) *VList {
+	return &VList{tx: Transaction{WithoutSearch: withoutSearch}, key: key}
+}
+
+// PushBack appends a version.
+func (l *VList) PushBack(seq uint64, cid string) {
+	n := new(Node[model.File]).SetV(model.File{Key: l.key, ContentId: cid, Seq: sequence.Seq(seq)})
+	l.tx.PushBack(n)
+}
+
+// PopFront removes the oldest version and returns its sequence (0 if none).
+func (l *VList) PopFront() uint64 { return uint64(l.tx.File(l.key).PopFront().V().Seq) }
+
+// PopBack removes the newest version and returns its sequence (0 if none).
+func (l *VList) PopBack() uint64 { return uint64(l.tx.File(l.key).PopBack().V().Seq) }
+
+// Latest returns the sequence of the newest version (0 if none).
+func (l *VList) Latest() uint64 { return uint64(l.tx.File(l.key).Latest().Seq) }
+
+// LastBefore returns the sequence of the newest version before seq (0 if none).
+func (l *VList) LastBefore(seq uint64) uint64 {
+	return uint64(l.tx.File(l.key).LastBefore(sequence.Seq(seq)).Seq)
+}
+
+// Collect pops every version that IterateBeforeSeq yields for the horizon, as the collector does.
+func (l *VList) Collect(horizon uint64) []uint64 {
+	var res []uint64
+	f := l.tx.File(l.key)
+	for v := range f.IterateBeforeSeq(sequence.Seq(horizon)) {
+		res = append(res, uint64(v.Seq))
+		f.PopFront()
+	}
+
+	return res
+}
+
+// Seqs lists the versions in list order and checks the array mirror.
+func (l *VList) Seqs() []uint64 {
+	all, ok := l.tx.VerifVersions()
+	vs := all[l.key]
+	if !ok {
+		return nil
+	}
+	res := make([]uint64, len(vs))
+	for i, v := range vs {
+		res[i] = uint64(v.Seq)
+	}
+
+	return res
+}
